@@ -644,6 +644,7 @@ def check_c19(sc, res):
                  cfg.get("encoding"), spelling, has_dup)
     res.steps += len(disk.events) + len(disk.listings)
     res.stats["probe:facade:" + facade] += 1
+    res.stats["buggify:listing-" + str(cfg.get("listing", "sorted"))] += len(disk.listings)
     res.log("c19", disk.log_digest())
 
 
@@ -825,6 +826,7 @@ def check_c20(sc, res):
         res.note("packbanner", facade, why, len(admissible), cfg.get("listing"), spelling)
     res.steps += len(disk.events) + len(disk.listings)
     res.stats["probe:facade:" + facade] += 1
+    res.stats["buggify:listing-" + str(cfg.get("listing", "sorted"))] += len(disk.listings)
     res.log("c20", disk.log_digest())
 
 
